@@ -689,21 +689,7 @@ func c07RetryObservesCtx(c *Ctx) {
 // the branch conditions known to hold there: for every dominating If one of whose out-edges
 // dominates the start block (target entered only through that edge), the condition is assumed.
 func assumeDominators(st *State, start *ssa.BasicBlock) {
-	for d := start.Idom(); d != nil; d = d.Idom() {
-		iff := lastIf(d)
-		if iff == nil {
-			continue
-		}
-		t, f := d.Succs[0], d.Succs[1]
-		domT := len(t.Preds) == 1 && (t == start || t.Dominates(start))
-		domF := len(f.Preds) == 1 && (f == start || f.Dominates(start))
-		switch {
-		case domT && !domF:
-			st.assume(iff.Cond, true)
-		case domF && !domT:
-			st.assume(iff.Cond, false)
-		}
-	}
+	st.assumeDominating(start)
 }
 
 // c07ListerDone: a listing or producing component that is handed the context's own Done channel
@@ -811,12 +797,84 @@ func c07ListerDone(c *Ctx) {
 // drain of the previous worker does not count for the next one).  Read earlier, a cancellation
 // that the worker has not recorded yet is missed and a partial index is returned as success.
 func c07StatusAfterDrain(c *Ctx) {
-	fn := c.mustFn("IndexFromFile")
-	if fn == nil {
+	top := c.mustFn("IndexFromFile")
+	if top == nil {
 		return
 	}
+	// the receive whose "closed" outcome is tested, for worker value w (nil: not such a test)
+	closedEdge := func(iff *ssa.If, w ssa.Value) (onTrue, onFalse bool) {
+		ex, ok := stripNot(iff.Cond).(*ssa.Extract)
+		if !ok || ex.Index != 1 {
+			return false, false
+		}
+		rcv, ok := ex.Tuple.(*ssa.UnOp)
+		if !ok || rcv.Op != token.ARROW || !rcv.CommaOk {
+			return false, false
+		}
+		fromW := false
+		for _, l := range leaves(rcv.X) {
+			if cl, ok := l.(*ssa.UnOp); ok && cl.Op == token.MUL {
+				if cfa, ok := cl.X.(*ssa.FieldAddr); ok && fieldOf(cfa) == "pChunker.results" && cfa.X == w {
+					fromW = true
+				}
+			}
+		}
+		if !fromW {
+			return false, false
+		}
+		_, truth, _ := cmpOf(iff.Cond)
+		return !truth, truth // ok == false: closed
+	}
+	// drains(h, k): new helper h returns only after it has seen the results channel of its k-th
+	// parameter closed
+	var drains func(h *ssa.Function, k int) bool
+	drains = func(h *ssa.Function, k int) bool {
+		if h == nil || !newHelpers[h] || k >= len(h.Params) || len(h.Blocks) == 0 {
+			return false
+		}
+		w := ssa.Value(h.Params[k])
+		closed := edgesWhere(h, func(iff *ssa.If) (bool, bool) { return closedEdge(iff, w) })
+		if len(closed) == 0 {
+			return false
+		}
+		r := reachable(h, closed)
+		for _, ret := range returnsOf(h) {
+			if r[ret.Block()] {
+				return false
+			}
+		}
+		return true
+	}
+	isDrainCall := func(ins ssa.Instruction, w ssa.Value) bool {
+		ci, ok := ins.(*ssa.Call)
+		if !ok {
+			return false
+		}
+		h := directCallee(ci)
+		if h == nil {
+			return false
+		}
+		for k, a := range ci.Call.Args {
+			if a == w && drains(h, k) {
+				return true
+			}
+		}
+		return false
+	}
+	var fam []*ssa.Function
+	seenF := map[*ssa.Function]bool{}
+	for _, f := range withClosures(top) {
+		for _, g := range fnsDeep(f) {
+			for _, g2 := range withClosures(g) {
+				if !seenF[g2] {
+					seenF[g2] = true
+					fam = append(fam, g2)
+				}
+			}
+		}
+	}
 	n := 0
-	for _, f := range withClosures(fn) {
+	for _, f := range fam {
 		instrs(f, func(_ *ssa.BasicBlock, _ int, ins ssa.Instruction) {
 			ld, ok := ins.(*ssa.UnOp)
 			if !ok || ld.Op != token.MUL || ins.Parent() != f {
@@ -829,42 +887,59 @@ func c07StatusAfterDrain(c *Ctx) {
 			n++
 			key := fmt.Sprintf("%s:%s-after-drain", fnKey(f), strings.TrimPrefix(fieldOf(fa), "pChunker."))
 			w := fa.X
-			def, isIns := w.(ssa.Instruction)
-			if !isIns {
-				c.bad(key, ld.Pos(), "the worker whose %s is read is not picked inside this function", fieldOf(fa))
-				return
-			}
-			closed := edgesWhere(f, func(iff *ssa.If) (bool, bool) {
-				ex, ok := stripNot(iff.Cond).(*ssa.Extract)
-				if !ok || ex.Index != 1 {
-					return false, false
-				}
-				rcv, ok := ex.Tuple.(*ssa.UnOp)
-				if !ok || rcv.Op != token.ARROW || !rcv.CommaOk {
-					return false, false
-				}
-				// the channel: w.results of the same worker value
-				fromW := false
-				for _, l := range leaves(rcv.X) {
-					if cl, ok := l.(*ssa.UnOp); ok && cl.Op == token.MUL {
-						if cfa, ok := cl.X.(*ssa.FieldAddr); ok && fieldOf(cfa) == "pChunker.results" && cfa.X == w {
-							fromW = true
-						}
+			// where the worker value comes into being: an instruction, or the entry for a parameter
+			startB, startI := f.Blocks[0], 0
+			if def, isIns := w.(ssa.Instruction); isIns {
+				startB = def.Block()
+				for i, x := range startB.Instrs {
+					if x == def {
+						startI = i + 1
 					}
 				}
-				if !fromW {
-					return false, false
+			} else if _, isParam := w.(*ssa.Parameter); !isParam {
+				c.bad(key, ld.Pos(), "the worker whose %s is read is neither picked inside this function nor a parameter", fieldOf(fa))
+				return
+			}
+			closed := edgesWhere(f, func(iff *ssa.If) (bool, bool) { return closedEdge(iff, w) })
+			// can the load be reached from the start without crossing a closed edge or a draining call?
+			reached := false
+			seenB := map[*ssa.BasicBlock]bool{}
+			type item struct {
+				b *ssa.BasicBlock
+				i int
+			}
+			work := []item{{startB, startI}}
+			for len(work) > 0 && !reached {
+				it := work[len(work)-1]
+				work = work[:len(work)-1]
+				stopped := false
+				for i := it.i; i < len(it.b.Instrs); i++ {
+					x := it.b.Instrs[i]
+					if x == ssa.Instruction(ld) {
+						reached = true
+						break
+					}
+					if isDrainCall(x, w) {
+						stopped = true
+						break
+					}
 				}
-				_, truth, _ := cmpOf(iff.Cond)
-				return !truth, truth // ok == false: closed
-			})
-			r := reachableFrom(def.Block(), closed)
-			okD := len(closed) > 0 && !r[ld.Block()] && ld.Block() != def.Block()
-			c.verdict(okD, key, ld.Pos(), "read only after this worker's results channel was seen closed",
+				if reached || stopped {
+					continue
+				}
+				for _, sc := range it.b.Succs {
+					if closed[edge{it.b, sc}] || seenB[sc] {
+						continue
+					}
+					seenB[sc] = true
+					work = append(work, item{sc, 0})
+				}
+			}
+			c.verdict(!reached, key, ld.Pos(), "read only after this worker's results channel was seen closed",
 				fmt.Sprintf("%s of a chunking worker is read before (or without) its results channel having been drained to the close: the worker may still be running, an interruption or read error it is about to record is missed and a partial index is returned as success", fieldOf(fa)))
 		})
 	}
 	if n == 0 {
-		c.bad("IndexFromFile:status-after-drain", fn.Pos(), "IndexFromFile never looks at a worker's err/eof")
+		c.bad("IndexFromFile:status-after-drain", top.Pos(), "IndexFromFile never looks at a worker's err/eof")
 	}
 }
